@@ -273,6 +273,8 @@ def analyze(job):
                     sig = {"dir": "incomplete", "culprit": cu[1] if cu else ["?"]}
                     if not (cu and cu[1]):
                         sig["features"] = features(program)
+                    sig["culprit_family"] = "buffer" if cu and any("Buffer" in c for c in cu[1]) else "other"
+                    sig["some_task_unscheduled"] = any(v is False for k, v in leaf.items() if k[0] == "sched")
                     if cu and len(cu[0]) <= 2:
                         sig.update(incomplete_disc(program, leaf, cu[0]))
                     key = json.dumps(sig, sort_keys=True)
